@@ -12,7 +12,7 @@ class C07(Prop):
     pid = "C07"
     prop_file = "Props/C07.v"
     module = "Props.C07"
-    gen_deps = ["Table"]
+    gen_deps = ["Table", "ParserFn", "WinconFn"]
     harness = ("h-core", "hcore")
     nontrivial_rule = ("cases: exhaustively all single SGR sequences of up to 3 attribute groups over a 22-element representative set (both spellings), each followed "
                        "by text and preceded by text; seeded UTF-8 texts interleaved with grammar SGR sequences (<=32 values, leading zeros, empty params, unknown codes), "
